@@ -59,9 +59,18 @@ def vars_from(func, callee_names):
     for st in walk_local(func.node):
         if isinstance(st, ast.Assign) and len(st.targets) == 1 and isinstance(st.targets[0], ast.Name):
             defs.setdefault(st.targets[0].id, []).append(st.value)
-    return {k for k, vs in defs.items() if all(isinstance(v, ast.Call) and last_attr(v) in callee_names or
+    out = {k for k, vs in defs.items() if all(isinstance(v, ast.Call) and last_attr(v) in callee_names or
                                                (isinstance(v, ast.Constant) and isinstance(v.value, bool)) for v in vs)
-            and any(isinstance(v, ast.Call) for v in vs)}
+           and any(isinstance(v, ast.Call) for v in vs)}
+    # ... and plain copies of such locals (the result variable of an inlined helper)
+    changed = True
+    while changed:
+        changed = False
+        for k, vs in defs.items():
+            if k not in out and vs and all(isinstance(v, ast.Name) and v.id in out for v in vs):
+                out.add(k)
+                changed = True
+    return out
 
 
 def joins_child(ctx, cls, call, func, depth=0):
@@ -92,10 +101,13 @@ def check_process_poll_thread_safety(ctx):
         ctx.ob('R2', 'the registry does not poll registered workers from foreign threads', True)
         return
     n = 0
-    for name in ('is_alive', 'wait', 'terminate'):
-        f = PW.methods.get(name)
-        if f is None:
-            continue
+    impls = []
+    for c0 in [PW] + list(P.subclasses(PW)):
+        for name in ('is_alive', 'wait', 'terminate'):
+            f0 = c0.methods.get(name)
+            if f0 is not None and f0 not in impls:
+                impls.append(f0)
+    for f in impls:
         ctx.used(f)
         pm = parent_map(f.node)
         bare = []
@@ -404,19 +416,23 @@ def run(ctx):
                 n_ret += 1
                 v = n.stmt.value
                 where = loc(f, n.stmt)
+                lvn2 = vars_from(f, ('is_alive',))
+                not_alive_edges = guard_dsts(g, tuple(lvn2), 'false') | guard_dsts(g, tuple('not ' + x for x in lvn2), 'true') if lvn2 else set()
+                alive_edges = guard_dsts(g, tuple(lvn2), 'true') | guard_dsts(g, tuple('not ' + x for x in lvn2), 'false') if lvn2 else set()
                 if isinstance(v, ast.Constant) and v.value is True:
-                    ok = bool(dom.get(n.id, set()) & dead_true)
+                    # ... or behind the not-alive side of a test of the liveness just sampled (`if alive: return False` / ... / `return True`)
+                    ok = bool(dom.get(n.id, set()) & (dead_true | not_alive_edges))
                     ctx.check('R2', f'{F}: `return True` at line {n.line} is under a dead/not-started guard', ok, F, 'return-True-unguarded',
                               f'{F} returns True without evidence that the worker is dead', where=where)
                 elif isinstance(v, ast.Constant) and v.value is False:
                     neg = guard_dsts(g, tuple('not ' + v for v in vars_from(f, ('recv_msg',))), 'true')
-                    ok = bool(dom.get(n.id, set()) & neg)
+                    ok = bool(dom.get(n.id, set()) & (neg | alive_edges))
                     ctx.check('R2', f'{F}: `return False` at line {n.line} follows a negative reply of the server', ok, F, 'return-False-unguarded',
                               f'{F} returns False without a negative answer from the server', where=where)
                 elif isinstance(v, ast.UnaryOp) and isinstance(v.op, ast.Not) and isinstance(v.operand, ast.Name):
                     var = v.operand.id
                     defs = [d for d in g.nodes if d.stmt is not None and d.part in ('store', None) and isinstance(d.stmt, ast.Assign) and is_name(d.stmt.targets[0], var) and in_stmts(d.stmt, stmts)]
-                    okdef = bool(defs) and all(isinstance(d.stmt.value, ast.Call) and last_attr(d.stmt.value) == 'is_alive' for d in defs)
+                    okdef = bool(defs) and (all(isinstance(d.stmt.value, ast.Call) and last_attr(d.stmt.value) == 'is_alive' for d in defs) or var in lvn2)
                     # the liveness sample is taken after the last blocking call: no join between the def and the return
                     late = True
                     for d in defs:
